@@ -566,6 +566,11 @@ pub fn cases(tier: Tier) -> Vec<Case> {
     let mut v = vec![];
     for n in 1..=3 {
         for b in batches(tier, n) {
+            // the scheduler explores every interleaving whatever the spawn order, so the quick tier takes one ordered
+            // batch per multiset of element kinds (the thorough tier takes every ordered batch)
+            if !tier.is_thorough() && !b.windows(2).all(|w| w[0] <= w[1]) {
+                continue;
+            }
             v.push(Case::Batch { kinds: b });
         }
     }
@@ -598,7 +603,7 @@ impl Prop for C18 {
         "C18"
     }
     fn rule(&self, tier: Tier) -> String {
-        format!("Part 1 (decides): the only concurrent seam, LocomotiveSimulationVec::walk(true) = rayon par_iter_mut().try_for_each(walk), is explored through rayon's contract (each element visited at most once; after an error no new element starts; started ones finish): one scheduler thread per element sharing one flag, element bodies = the REAL LocomotiveSimulation::walk. shuttle check_dfs (unbounded DFS, every interleaving) for EVERY batch of N <= 3 elements over {} element kinds (ok/failing at step 1/failing later x conv/BEL); for N = 4 (every batch over 4 kinds{}) and three N = 5 batches the same contract is enumerated explicitly over its 2N events ((2N)!/2^N interleavings); the two engines must produce the same outcome set for every N <= 3 batch. states = schedules. Binding: the real walk(true) runs inside rayon pools of 1..16 threads ({} repetitions each) and every observed outcome must be a member of the explored outcome set; walk(false) must equal the element-wise serial reference. Part 2 (decides): for Link.speed_sets and LocationMap with 3 keys and TrainConfig.n_cars_by_type with 4 keys (car masses chosen so that f64 summation is order-sensitive), map instances are created until all 3! / 4! iteration orders are realised and the consuming pipeline must give identical outputs for each. Part 3 (sampled tripwire, not a verdict): {} scenarios of est-time construction, dispatch and speed-limited simulation run twice in fresh threads and compared byte for byte. distinct_nontrivial = distinct (part, batch size, number of outcomes / orders) signatures.", kinds_alphabet(tier).len(), if tier.is_thorough() { "" } else { ", every 8th in the quick tier" }, if tier.is_thorough() { 20 } else { 6 }, if tier.is_thorough() { 72 } else { 18 })
+        format!("Part 1 (decides): the only concurrent seam, LocomotiveSimulationVec::walk(true) = rayon par_iter_mut().try_for_each(walk), is explored through rayon's contract (each element visited at most once; after an error no new element starts; started ones finish): one scheduler thread per element sharing one flag, element bodies = the REAL LocomotiveSimulation::walk. shuttle check_dfs (unbounded DFS, every interleaving) for EVERY batch (quick tier: every multiset) of N <= 3 elements over {} element kinds (ok/failing at step 1/failing later x conv/BEL); for N = 4 (every batch over 4 kinds{}) and three N = 5 batches the same contract is enumerated explicitly over its 2N events ((2N)!/2^N interleavings); the two engines must produce the same outcome set for every N <= 3 batch. states = schedules. Binding: the real walk(true) runs inside rayon pools of 1..16 threads ({} repetitions each) and every observed outcome must be a member of the explored outcome set; walk(false) must equal the element-wise serial reference. Part 2 (decides): for Link.speed_sets and LocationMap with 3 keys and TrainConfig.n_cars_by_type with 4 keys (car masses chosen so that f64 summation is order-sensitive), map instances are created until all 3! / 4! iteration orders are realised and the consuming pipeline must give identical outputs for each. Part 3 (sampled tripwire, not a verdict): {} scenarios of est-time construction, dispatch and speed-limited simulation run twice in fresh threads and compared byte for byte. distinct_nontrivial = distinct (part, batch size, number of outcomes / orders) signatures.", kinds_alphabet(tier).len(), if tier.is_thorough() { "" } else { ", every 8th in the quick tier" }, if tier.is_thorough() { 20 } else { 6 }, if tier.is_thorough() { 72 } else { 18 })
     }
     fn assumptions(&self) -> Vec<String> {
         vec![
